@@ -22,7 +22,7 @@ _FLAGS = ('overflow', 'underflow', 'inaccuracy')
 class Snap(object):
     """Immutable picture of one Fxp object at a quiescent point."""
     __slots__ = ('oid', 'signed', 'n_word', 'n_frac', 'n_int', 'shape', 'codes', 'imag', 'ints_ok', 'bad_type',
-                 'is_complex', 'status', 'rounding', 'overflow', 'shifting', 'scale', 'bias', 'scaled',
+                 'is_complex', 'cx_obj', 'status', 'rounding', 'overflow', 'shifting', 'scale', 'bias', 'scaled',
                  'upper', 'lower', 'precision', 'dtype', 'vdtype', 'id_config', 'id_status', 'id_val',
                  'val_ref', 'cfg', 'n_callbacks', 'val_container')
 
@@ -94,6 +94,9 @@ def snap(x):
     obj_complex = arr.dtype == object and any(isinstance(k, (complex, np.complexfloating)) for k in arr.ravel().tolist())
     s.is_complex = bool(np.iscomplexobj(arr)) or x.vdtype == complex or obj_complex \
         or isinstance(getattr(x, 'upper', None), complex) or str(getattr(x, 'dtype', '')).endswith('-complex')
+    # complex as the object itself is (value array / value type), without looking at its dtype string
+    vd = x.vdtype
+    s.cx_obj = bool(np.iscomplexobj(arr)) or obj_complex or vd == complex or (isinstance(vd, type) and issubclass(vd, np.complexfloating))
     if np.iscomplexobj(arr) or obj_complex:
         if obj_complex:
             flat = arr.ravel().tolist()
